@@ -215,9 +215,9 @@ Qed.
 
 Theorem add_sound a b x y :
   wf a -> wf b -> bits a = bits b -> gamma a x -> gamma b y ->
-  exists r, add a b = Ok r /\ wf r /\ bits r = bits a /\ gamma r ((x + y) mod 2 ^ bits a).
+  exists r, si_add a b = Ok r /\ wf r /\ bits r = bits a /\ gamma r ((x + y) mod 2 ^ bits a).
 Proof.
-  intros Ha Hb Hab Gx Gy. unfold add.
+  intros Ha Hb Hab Gx Gy. unfold si_add.
   rewrite <- Hab. rewrite Z.eqb_refl. cbn [negb]. rewrite Z.max_id.
   destruct (overflow_ok a b Ha Hb Hab) as (o & -> & Ho). cbn [bind].
   pose proof Ha as (_ & Hw & Hsa & Hla & Hua). pose proof Hb as (_ & _ & Hsb & Hlb & Hub).
@@ -259,9 +259,9 @@ Definition aligned (a : si) : Prop := exists m, 0 <= m /\ span a = m * stride a.
 
 Theorem sub_sound a b x y :
   wf a -> wf b -> bits a = bits b -> aligned b -> gamma a x -> gamma b y ->
-  exists r, sub a b = Ok r /\ wf r /\ bits r = bits a /\ gamma r ((x - y) mod 2 ^ bits a).
+  exists r, si_sub a b = Ok r /\ wf r /\ bits r = bits a /\ gamma r ((x - y) mod 2 ^ bits a).
 Proof.
-  intros Ha Hb Hab (m & Hm & Hal) Gx Gy. unfold sub.
+  intros Ha Hb Hab (m & Hm & Hal) Gx Gy. unfold si_sub.
   rewrite <- Hab. rewrite Z.eqb_refl. cbn [negb]. rewrite Z.max_id.
   destruct (overflow_ok a b Ha Hb Hab) as (o & -> & Ho). cbn [bind].
   pose proof Ha as (_ & Hw & Hsa & Hla & Hua). pose proof Hb as (_ & _ & Hsb & Hlb & Hub).
@@ -301,9 +301,9 @@ Qed.
 
 Theorem neg_sound a y :
   wf a -> aligned a -> gamma a y ->
-  exists r, neg a = Ok r /\ wf r /\ bits r = bits a /\ gamma r ((- y) mod 2 ^ bits a).
+  exists r, si_neg a = Ok r /\ wf r /\ bits r = bits a /\ gamma r ((- y) mod 2 ^ bits a).
 Proof.
-  intros Ha Hal Gy. unfold neg.
+  intros Ha Hal Gy. unfold si_neg.
   pose proof Ha as (_ & Hw & _).
   destruct (mk_sound (bits a) 0 0 0 Hw ltac:(lia)) as (z & -> & Hwfz & Hbz & Hgz). cbn [bind].
   assert (Gz : gamma z 0).
@@ -322,7 +322,7 @@ Definition sub_unaligned_witness : si * si := (mkSI 2 0 0 0 false, mkSI 2 2 0 1 
 Theorem sub_unaligned_refuted :
   let '(a, b) := sub_unaligned_witness in
   wf a /\ wf b /\ gamma a 0 /\ gamma b 0 /\
-  exists r, sub a b = Ok r /\ ~ In ((0 - 0) mod 2 ^ bits a) (members r).
+  exists r, si_sub a b = Ok r /\ ~ In ((0 - 0) mod 2 ^ bits a) (members r).
 Proof.
   unfold sub_unaligned_witness.
   assert (P : 2 ^ 2 = 4) by reflexivity.
@@ -354,4 +354,27 @@ Proof.
         rewrite Z2Nat.id by lia. split; [auto|]. apply in_seq.
         assert (k <= span a / stride a) by (apply Z.div_le_lower_bound; lia).
         assert (0 <= span a / stride a) by (apply Z.div_pos; lia). lia.
+Qed.
+
+(* ---------- cardinality ---------- *)
+
+Theorem cardinality_exact a :
+  wf a -> (lb a <> ub a -> 0 < stride a) ->
+  cardinality a = Ok (Z.of_nat (length (members a))).
+Proof.
+  intros (Hb & Hw & Hs & Hl & Hu) Hred. unfold cardinality, members, is_integer. rewrite Hb.
+  pose proof (pow_pos (bits a) ltac:(lia)) as Hn.
+  destruct (lb a =? ub a) eqn:E.
+  - apply Z.eqb_eq in E. destruct (stride a <=? 0) eqn:E2; [reflexivity|].
+    unfold span. rewrite <- E, Z.sub_diag, Z.mod_0_l by lia.
+    rewrite Z.div_0_l by lia. reflexivity.
+  - apply Z.eqb_neq in E. specialize (Hred E).
+    destruct (stride a <=? 0) eqn:E2; [lia|].
+    rewrite modular_sub_ok by lia. cbn [bind]. unfold py_floordiv.
+    destruct (stride a =? 0) eqn:E3; [lia|].
+    rewrite map_length, seq_length. f_equal. fold (span a).
+    pose proof (span_range a ltac:(lia)).
+    rewrite Z2Nat.id.
+    + replace (span a + stride a) with (span a + 1 * stride a) by lia. rewrite Z.div_add by lia. reflexivity.
+    + assert (0 <= span a / stride a) by (apply Z.div_pos; lia). lia.
 Qed.
